@@ -399,6 +399,31 @@ def slice_of(t, base_pred):
     return None
 
 
+def scan_cursor(ctx, f, scan):
+    """the position variable of the scan loop, however the loop test is written: the name that is advanced (+=) in the loop body
+    and indexes the strand.  Returns the versioned symbol as it is read inside the loop, or None"""
+    body = [n for n in f.nodes if scan in n.loops]
+    advanced = {d.name for n in body for d in n.defs if d.kind == 'aug'}
+    strand = ('v', 'dna_sequence', 'P')
+    found = {}
+    for n in body + [f.nodes[scan]]:
+        for n2, r, t in ctx.root_terms(f):
+            if n2.id != n.id or t is None:
+                continue
+            for x in walk_term(t):
+                if x[0] == 'sub' and x[1] == strand and x[2][0] == 'v' and x[2][1] in advanced:
+                    found.setdefault(x[2][1], x[2])
+    if len(found) == 1:
+        return next(iter(found.values()))
+    head = f.nodes[scan]
+    if head.ast is not None:
+        t = f.term(head.ast, head)
+        names = [x for x in walk_term(t) if x[0] == 'v' and x[1] in advanced]
+        if len({x[1] for x in names}) == 1:
+            return names[0]
+    return None
+
+
 def r_tile(ctx, step_only=False):
     run = ctx.run
     run.rule('R-TILE', "in the error arm of repair_dna's scan (E = cursor, k = observed length) the affine forms of "
@@ -413,11 +438,14 @@ def r_tile(ctx, step_only=False):
     if scan is None:
         raise AnalysisError("rule R-TILE lost its anchor: scan loop")
     head = f.nodes[scan]
-    test = f.term(head.ast, head)
-    if not (test[0] == 'cmp' and test[1] == '<' and test[2][0] == 'v'):
-        raise AnalysisError("rule R-TILE: scan loop test %s" % show(test))
-    cursor = test[2][1]
-    E = test[2]
+    test = f.term(head.ast, head) if head.ast is not None else None
+    if test is not None and test[0] == 'cmp' and test[1] == '<' and test[2][0] == 'v':
+        E = test[2]
+    else:
+        E = scan_cursor(ctx, f, scan)
+        if E is None:
+            raise AnalysisError("rule R-TILE: scan loop test %s" % (show(test) if test else None))
+    cursor = E[1]
     strand = ('v', 'dna_sequence', 'P')
     state = steps[0].d.name
     err = None
@@ -476,6 +504,7 @@ def r_tile(ctx, step_only=False):
                 A['trim_bound'] = v[2][2]
                 A['trim_lo'] = v[2][1]
                 A['trim_line'] = e.node.lineno
+                A['trim_node'] = e.node
     need = ['resume', 'step', 'chunk', 'marker', 'seed', 'trim_bound']
     missing = [n for n in need if n not in A or A[n] is None]
     if missing:
@@ -544,6 +573,15 @@ def r_tile(ctx, step_only=False):
             nz_ok = bool(others) or not (kk < 0 and c > 0 and c % (-kk) == 0 and c // (-kk) >= 1)
     else:
         nz_ok = False
+    if ua is not None and not nz_ok and A.get('trim_node') is not None and ua.get(K_SYM):
+        # the trim is only executed where the bound is not zero (if k - 1 != 0: s = s[:-(k - 1)])
+        k0 = ua.get(1, 0) // -ua.get(K_SYM) if ua.get(1, 0) % -ua.get(K_SYM) == 0 else None
+        if k0 is not None:
+            for a_, p_ in ctx.conds(f, A['trim_node']):
+                if any(x == K_SYM for x in walk_term(a_)):
+                    v_ = feval(a_, lambda x: k0 if x == K_SYM else UNKNOWN)
+                    if v_ is not UNKNOWN and bool(v_) != p_:
+                        nz_ok = True
     if ua is None:
         run.undecided('R-TILE', f, 'trim:NZ', A.get('trim_line', line), 'the trim bound %s is not an affine form' % show(A['trim_bound'])[:60])
     else:
@@ -1431,8 +1469,11 @@ def r_recomb(ctx):
     steps = walk_steps(ctx, f)
     scan = steps[0].node.loops[-1]
     head = f.nodes[scan]
-    test = f.term(head.ast, head)
-    cursor = test[2]
+    test = f.term(head.ast, head) if head.ast is not None else None
+    cursor = test[2] if test is not None and test[0] == 'cmp' and test[1] == '<' and len(test) > 2 and test[2][0] == 'v' \
+        else scan_cursor(ctx, f, scan)
+    if cursor is None:
+        raise AnalysisError("rule R-RECOMB: scan loop cursor not identified (%s)" % (show(test) if test else None))
     # (1) the walk arm: segments[-1] += STRAND[cursor]
     ok1 = False
     seg = None
